@@ -136,6 +136,9 @@ func (transScenario) Build(cfg string) ([]func(), func(*vsched.Sched) []string) 
 		for i, n := range rec.log {
 			if n == prev {
 				problems = append(problems, fmt.Sprintf("notifications do not alternate: %s (index %d repeats) from initial %v", strings.Join(rec.log, ""), i, initOpen))
+				if strings.ContainsAny(cfgStr(cfg, "ops"), "XYZ") {
+					problems = append(problems, "C11: a transition racing a live change of an override announced what neither the old nor the new setting allows (it saw both values of one flag)")
+				}
 				break
 			}
 			prev = n
